@@ -6,6 +6,7 @@
   internal/kvstore on every run.
 -/
 import OlricModel.Proofs.KVXfer
+import OlricModel.Generated.Facts
 namespace Olric.C11
 open Olric KV
 
@@ -287,6 +288,23 @@ theorem C11_transfer (src src' dst : KV) (t : Table) (ws : src.WF) (wd : dst.WF)
     intro s hs e
     have := (hslots s hs).2
     rw [e, hn] at this; cases this
+
+/-- **Tie to the source (regenerated on every run).**  The constants and code shapes the model encodes
+    are the ones the extractor finds in internal/kvstore today: record overhead 29, key limit 256,
+    garbage ratio 2/5, Put/PutRaw delete the superseded slot, Compaction skips the read-write table,
+    the sweep does not unregister by the (reset) coefficient. -/
+theorem facts_tie :
+    (∀ r : Rec, r.size = Facts.metadataLength + r.key.length + r.val.length) ∧
+    Facts.maxKeyLength = 256 ∧
+    (∀ t : Table, needsCompaction t = decide (t.garbage * Facts.maxGarbageRatioDen ≥ t.alloc * Facts.maxGarbageRatioNum)) ∧
+    Facts.table_put_deletes_existing = true ∧ Facts.table_putraw_deletes_existing = true ∧
+    Facts.compaction_skips_readwrite = true ∧ Facts.sweep_unregisters_by_coefficient = false := by
+  refine ⟨fun r => by simp [Rec.size, Facts.metadataLength], rfl, ?_, rfl, rfl, rfl, rfl⟩
+  intro t
+  simp only [needsCompaction, Facts.maxGarbageRatioDen, Facts.maxGarbageRatioNum]
+  congr 1
+  apply propext
+  constructor <;> intro h <;> omega
 
 /-! Non-vacuity: the hypotheses are met by concrete, non-trivial stores. -/
 
